@@ -45,7 +45,7 @@ var decodeSpecs = []anchorSpec{
 	{"capnp.Unmarshal", "capnp.demuxArena", 1, []string{"hdr", "p0[streamHeaderSize(SegmentID(Uint32(*LittleEndian, p0))):]"},
 		[]string{"nil == totalSize(hdr)#1", "totalSize(hdr)#0 <= uint64(len(p0[streamHeaderSize(SegmentID(Uint32(*LittleEndian, p0))):]))"},
 		"segments are sliced only if the data covers the header's total (allocation proportional to the input)"},
-	{"capnp.demuxArena", "capnp.(streamHeader).segmentSize", 1, []string{"p0", "SegmentID((1:int + phi))"},
+	{"capnp.demuxArena", "capnp.(streamHeader).segmentSize", 1, []string{"p0", "SegmentID(§)"},
 		[]string{"int64(maxSegment(p0)) <= 9223372036854775806:int64"},
 		"segment table is sized from a segment count that fits an int"},
 }
@@ -87,30 +87,57 @@ func ruleDecodeLimits(ctx *Ctx, rule string) {
 		{"total larger than limit minus header is rejected", "(§ - uint64(len(hdr.b))) < totalSize(hdr)#0", "message allocation above MaxMessageSize"},
 	}
 	found := map[string]bool{}
-	for _, b := range f.Blocks {
-		for _, in := range b.Instrs {
-			ret, ok := in.(*ssa.Return)
-			if !ok || len(ret.Results) != 2 || ssaq.IsNilConst(ret.Results[1]) {
-				continue
+	// Decode itself and the helpers that did not exist on the reference tree
+	// it calls, each seen in Decode's frame
+	// a condition written with the source names of locals (hdr) is looked for in
+	// the name-free rendering when the reference tree defines those locals
+	resolved := map[string]bool{}
+	namedToo := map[string]string{} // key -> named form, for locals that are only identities
+	for i := range wants {
+		if wx, full := expandWant("capnp.(*Decoder).Decode", wants[i].atom); full {
+			if weakWant([]string{wx}) {
+				namedToo[wants[i].key] = wants[i].atom
 			}
-			atoms := ssaq.DomAtoms(ret)
-			// the returning block may be reached through an || of two tests: look at predecessors' edge conditions too
-			all := map[string]bool{}
-			for _, a := range atoms {
-				all[a] = true
-			}
-			for _, p := range b.Preds {
-				if ifi, ok := p.Instrs[len(p.Instrs)-1].(*ssa.If); ok && p.Succs[0] == b {
-					for _, a := range ssaq.DomAtoms(ifi) {
-						all[a] = true
-					}
-					all[ssaq.RenderCond(f, ifi.Cond, true)] = true
+			wants[i].atom, resolved[wants[i].key] = wx, true
+		}
+	}
+	for _, fr := range append(ssaq.Frames(f), ssaq.FramesR(f)...) {
+		isR := fr.Resolved()
+		for _, b := range fr.Fn.Blocks {
+			for _, in := range b.Instrs {
+				ret, ok := in.(*ssa.Return)
+				if !ok || len(ret.Results) < 1 || ssaq.IsNilConst(ret.Results[len(ret.Results)-1]) {
+					continue
 				}
-			}
-			for _, w := range wants {
-				for a := range all {
-					if matchPattern(a, w.atom) {
-						found[w.key] = true
+				atoms := fr.Atoms(ret)
+				// the returning block may be reached through an || of two tests: look at predecessors' edge conditions too
+				all := map[string]bool{}
+				for _, a := range atoms {
+					all[a] = true
+				}
+				for _, p := range b.Preds {
+					if ifi, ok := p.Instrs[len(p.Instrs)-1].(*ssa.If); ok && p.Succs[0] == b {
+						for _, a := range fr.Atoms(ifi) {
+							all[a] = true
+						}
+						all[fr.Cond(ifi.Cond, true)] = true
+					}
+				}
+				for _, w := range wants {
+					if nw, ok := namedToo[w.key]; ok && !isR {
+						for a := range all {
+							if matchPattern(a, nw) {
+								found[w.key] = true
+							}
+						}
+					}
+					if resolved[w.key] != isR {
+						continue
+					}
+					for a := range all {
+						if matchPattern(a, w.atom) {
+							found[w.key] = true
+						}
 					}
 				}
 			}
@@ -159,7 +186,21 @@ func ruleEOFOnlyAtBoundary(ctx *Ctx, rule string) {
 		return
 	}
 	n := 0
-	for _, b := range f.Blocks {
+	// Decode's own reads first, then those of helpers that did not exist on
+	// the reference tree (a read moved into a helper is still a mid-frame read)
+	type blk struct {
+		fr *ssaq.Frame
+		b  *ssa.BasicBlock
+	}
+	var blocks []blk
+	for _, fr := range ssaq.Frames(f) {
+		for _, b := range fr.Fn.Blocks {
+			blocks = append(blocks, blk{fr, b})
+		}
+	}
+	for _, bb := range blocks {
+		fr, b := bb.fr, bb.b
+		f := fr.Fn
 		for _, in := range b.Instrs {
 			call, ok := in.(*ssa.Call)
 			if !ok || ssaq.StaticCalleeName(call) != "io.ReadFull" {
